@@ -131,7 +131,7 @@ class RecordingTokenManager:
 
 
 _LOG = logging.getLogger("c15-harness")
-_LOG.setLevel(logging.CRITICAL + 1)
+__import__("common").quiet(_LOG)
 _LOG.propagate = False
 
 
